@@ -72,9 +72,9 @@ fn c19(stride: u32) -> (u64, bool) {
         }
         // layout-aware inputs (clamping boundaries, cut characters, short fixed-size members)
         if entry < 2 {
-            for kind in 0..4usize {
+            for kind in 0..5usize {
                 for i in 0..(16 / stride.max(1)).max(2) {
-                    let w: Vec<u32> = vec![idx(entry, 2), idx(kind, 4)]
+                    let w: Vec<u32> = vec![idx(entry, 2), idx(kind, 5)]
                         .into_iter()
                         .chain((0..120u32).map(|j| i.wrapping_mul(0x9E37_79B9).wrapping_add(777).wrapping_add(j.wrapping_mul(0x85EB_CA6B)).rotate_left(j % 29)))
                         .collect();
